@@ -1552,6 +1552,7 @@ func (bg *BondgoCheck) Visit(n ast.Node) ast.Visitor {
 				}
 			}
 		}
+		bg.Used <- UsageNotify{TR_PROC, bg.CurrentRoutine, C_OPCODE, "j", I_NIL}
 		bg.WriteLine(bg.CurrentRoutine, "j <<LASTN>>")
 	case *ast.SendStmt:
 		if bg.In_debug() {
